@@ -5,7 +5,7 @@
 From Coq Require Import Lia Relations Sorted Permutation.
 From HpoV Require Import Gen.Consts Model.Base Model.Group Model.Onto Model.Query Model.Binary
   Proofs.GroupP Proofs.BaseP Proofs.ClosureP Proofs.AcyclicP Proofs.TotalP Proofs.DistP Proofs.QgoodP Proofs.LinkP Proofs.C03W
-  Proofs.SectionP Proofs.RoundTripP Proofs.AnnotP Proofs.TotalLinkP Proofs.SubLinksP Proofs.ReloadP Proofs.C18P Proofs.BuilderAnnotP.
+  Proofs.SectionP Proofs.RoundTripP Proofs.AnnotP Proofs.TotalLinkP Proofs.SubLinksP Proofs.ReloadP Proofs.C18P Proofs.BuilderAnnotP Proofs.RecordsP Proofs.WalkP.
 
 (* ---------------- the structural phases ---------------- *)
 
@@ -258,4 +258,22 @@ Theorem reload_accepted icf order o :
 Proof.
   intros F S R A Ic Nd Dk Hp Hroot Hph. rewrite (decode_encode_is_rebuild icf order o F).
   apply (rebuild_total icf order o S R A Ic Nd Dk Hp Hroot Hph).
+Qed.
+
+(* ---------------- annotate_* on a stored term always succeeds ---------------- *)
+
+Theorem annotate_total k id name tid o : qgood o -> acyclic (o_arena o) ->
+  (forall t, In t (ar_terms (o_arena o)) -> sorted (t_annots k t)) -> In tid (ar_keys (o_arena o)) ->
+  exists o', b_annotate k id name tid o = Ok o'.
+Proof.
+  intros G R Hs Hk. unfold b_annotate.
+  destruct (WalkP.resolve_key o tid G Hk) as [t Ht]. unfold resolve in Ht. destruct (o_get tid o) as [t0|]; [|discriminate].
+  assert (exists r, an_find id (an_add name id (o_records k o)) = Some r) as [r ->].
+  { unfold an_add. destruct (an_find id (o_records k o)) as [r|] eqn:E; [exists r; exact E|].
+    exists (mkAnnot id name []). unfold an_find in *. rewrite (RecordsP.find_app_r a_id id (o_records k o) (mkAnnot id name []) E).
+    cbn [a_id]. rewrite N.eqb_refl. reflexivity. }
+  set (o1 := set_records k _ o). assert (o_arena o1 = o_arena o) as Ea by (destruct k; reflexivity). rewrite Ea.
+  destruct (links_total k id [tid] (o_arena o) (qgood_good k o G R Hs) (qgood_caches_nodup o G)) as [a' [E _]]; [intros d [<-|[]]; exact Hk|].
+  cbn [foldM] in E. destruct (link (link_fuel (o_arena o)) k (o_arena o) tid id) as [a1| | |]; cbn [bind] in E; try discriminate.
+  cbn [bind]. eexists. reflexivity.
 Qed.
